@@ -460,6 +460,10 @@ func (g *c03Gen) stmts(n, depth int, mayReturn, inLoop bool) ([]*c03Stmt, bool) 
 			vs := g.varsOf(func(gv c03GV) bool { return !gv.cst && gv.t.scalar() })
 			gv := vs[g.r.Intn(len(vs))]
 			out = append(out, &c03Stmt{tag: c03SAssign, v: gv.v, t: gv.t, e: g.expr(gv.t, 3)})
+		case x >= 60 && x < 65 && depth > 1: // nested conditional assignments of one variable in both arms
+			vs := g.varsOf(func(gv c03GV) bool { return !gv.cst && gv.t.scalar() })
+			gv := vs[g.r.Intn(len(vs))]
+			out = append(out, g.nestedMerge(gv, g.r.Range(2, 3), g.r.Bool(), g.r.Bool(), g.r.Intn(3) == 0))
 		case x < 65 && depth > 0: // if
 			s := &c03Stmt{tag: c03SIf, c: g.expr(c03Bool, 2)}
 			var da, db bool
@@ -566,6 +570,117 @@ func (g *c03Gen) stmts(n, depth int, mayReturn, inLoop bool) ([]*c03Stmt, bool) 
 		}
 	}
 	return out, false
+}
+
+// nestedMerge builds
+//
+//	if C1 { ARM } else { ARM }            or  if C1 { ARM } else if C2 { ARM } else { ARM }
+//
+// where every ARM assigns x only under a nested condition:
+//
+//	depth 2:  if D { x = E } [else { x = F }]
+//	depth 3:  if D { if D2 { x = E } [else { x = F }] } [else { x = G }]
+//
+// and, with laterRead, reads x afterwards inside the arm (y = y ^ x for another
+// variable y of x's type, if there is one).  Without laterRead nothing in the
+// arm touches x after the inner if, so the binding of x that reaches the
+// merge of the outer if is the still unresolved select of the inner merge.
+func (g *c03Gen) nestedMerge(x c03GV, depth int, innerElse, laterRead, chain bool) *c03Stmt {
+	assign := func() *c03Stmt { return &c03Stmt{tag: c03SAssign, v: x.v, t: x.t, e: g.expr(x.t, 1)} }
+	var inner func(d int) *c03Stmt
+	inner = func(d int) *c03Stmt {
+		s := &c03Stmt{tag: c03SIf, c: g.expr(c03Bool, 1)}
+		if d <= 2 {
+			s.a = []*c03Stmt{assign()}
+		} else {
+			s.a = []*c03Stmt{inner(d - 1)}
+		}
+		if innerElse {
+			s.hasEls = true
+			s.b = []*c03Stmt{assign()}
+		}
+		return s
+	}
+	arm := func() []*c03Stmt {
+		b := []*c03Stmt{inner(depth)}
+		if laterRead {
+			ys := g.varsOf(func(gv c03GV) bool { return !gv.cst && gv.t.equal(x.t) && gv.v.id != x.v.id })
+			if len(ys) > 0 {
+				y := ys[g.r.Intn(len(ys))]
+				op := c03BXor
+				if y.t.kind == 0 {
+					op = c03Ne // xor of booleans
+				}
+				b = append(b, &c03Stmt{tag: c03SAssign, v: y.v, t: y.t, e: &c03Expr{tag: c03EBin, op: op, t: y.t,
+					a: &c03Expr{tag: c03EVar, v: y.v}, b: &c03Expr{tag: c03EVar, v: x.v}}})
+			}
+		}
+		return b
+	}
+	s := &c03Stmt{tag: c03SIf, c: g.expr(c03Bool, 1), hasEls: true}
+	s.a = arm()
+	if chain {
+		e2 := &c03Stmt{tag: c03SIf, c: g.expr(c03Bool, 1), hasEls: true}
+		e2.a = arm()
+		e2.b = arm()
+		s.b = []*c03Stmt{e2}
+		s.elseIf = true
+	} else {
+		s.b = arm()
+	}
+	return s
+}
+
+// c03MergeFamily: the family "both arms of an if/else assign the same variable
+// under a nested condition", enumerated systematically (depth 2 and 3, inner
+// if with and without else, with and without a later read in the arm, if/else
+// and else-if chain) over two small types so that ALL inputs are run.  The
+// family is the same in every run: its random choices (conditions, assigned
+// expressions) come from a fixed seed, not from VERIF_SEED; `round` varies
+// them in the thorough tier.
+func c03MergeFamily(round int) []*c03Prog {
+	var out []*c03Prog
+	n := 0
+	for _, depth := range []int{2, 3} {
+		for _, innerElse := range []bool{false, true} {
+			for _, laterRead := range []bool{false, true} {
+				for _, chain := range []bool{false, true} {
+					n++
+					r := NewRNG(uint64(0xC03C03 + 1000*round + n))
+					g := &c03Gen{r: r, small: true}
+					g.p = &c03Prog{names: map[string]*c03Var{}, class: "mergefamily"}
+					g.pool = []*c03Ty{c03Bool}
+					kind, w := 2, 3+(round%2)*(n%2) // uint3 (thorough: also uint4)
+					if (n/2)%2 == 1 {
+						kind = 1 // int3 (int4): literals only with == != (generator rule)
+					}
+					t := g.scalarTy(kind, w)
+					f := &c03Func{name: "main"}
+					g.fn, g.fnIdx = f, 0
+					g.push()
+					for i := 0; i < 3; i++ {
+						v := g.newVar(string(rune('a' + i)))
+						f.params = append(f.params, v)
+						f.ptys = append(f.ptys, t)
+						g.declare(v, t, false)
+					}
+					f.rets = []*c03Ty{t, t}
+					x, y := g.newVar("x"), g.newVar("y")
+					f.body = append(f.body,
+						&c03Stmt{tag: c03SDecl, v: x, t: t, e: &c03Expr{tag: c03EVar, v: f.params[0]}, short: n%2 == 0},
+						&c03Stmt{tag: c03SDecl, v: y, t: t, e: &c03Expr{tag: c03EVar, v: f.params[1]}})
+					g.declare(x, t, false)
+					g.declare(y, t, false)
+					f.body = append(f.body, g.nestedMerge(c03GV{x, t, false}, depth, innerElse, laterRead, chain))
+					f.body = append(f.body, &c03Stmt{tag: c03SReturn, es: []*c03Expr{
+						{tag: c03EVar, v: x}, {tag: c03EVar, v: y}}})
+					g.p.funcs = []*c03Func{f}
+					out = append(out, g.p)
+				}
+			}
+		}
+	}
+	return out
 }
 
 // retStmtIn generates a return whose expressions see the declarations of blk
@@ -1431,6 +1546,10 @@ func c03FailKey(p *c03Prog, kind string) string {
 		return "c03:src:for:short-declaration-in-unrolled-loop-body:" + kind
 	case ft["shadow"]:
 		return "c03:src:shadow:declaration-in-nested-block-of-outer-name:" + kind
+	case ft["nested-conditional-assignment-in-both-arms"] && kind == "wrong-value" &&
+		!ft["sibling-scope-name-reuse"] && !ft["literal-operand:int<32:sign-sensitive"] &&
+		!ft["literal-left:uint:sign-sensitive"]:
+		return "c03:src:merge:nested-conditional-assignment-of-one-variable-in-both-arms:" + kind
 	case ft["sibling-scope-name-reuse"]:
 		return "c03:src:block-scope:name-reused-after-its-block-closed:" + kind
 	case ft["literal-operand:int<32:sign-sensitive"]:
@@ -1534,6 +1653,11 @@ func runC03(c *Ctx) error {
 	classes := []string{"core", "core", "core", "core", "core", "core", "core", "core", "core", "scope", "scope", "litnarrow", "litleft", "loopdecl"}
 	reported := map[string]int{}
 	ssaSkipped := map[string]int{}
+	var family []*c03Prog
+	for round := 0; round < c.N(1, 12); round++ {
+		family = append(family, c03MergeFamily(round)...)
+	}
+	nProg += len(family)
 	for i := 0; i < nProg; i++ {
 		r := c.rng.Fork()
 		class := classes[i%len(classes)]
@@ -1541,7 +1665,13 @@ func runC03(c *Ctx) error {
 		if small {
 			class = "core"
 		}
-		p := c03Generate(r, class, small, !c.Thorough())
+		var p *c03Prog
+		if i >= nProg-len(family) {
+			p = family[i-(nProg-len(family))]
+			class = "mergefamily"
+		} else {
+			p = c03Generate(r, class, small, !c.Thorough())
+		}
 		if !c03Valid(p) {
 			return fmt.Errorf("case %d: generator produced an ill-formed program:\n%s", i, p.src())
 		}
